@@ -486,7 +486,7 @@ def runCmd : Nat → Ed → String → Bytes → Bytes → Bytes → Option Byte
           | none => (acc.1 ++ [none], acc.2)) ([], 0)
         some (0, { ed with bufs := bufs, bufsCnt := n })
       else
-        let id := atoi arg
+        let id := exAtoi arg
         let curId := (ed.cur.map (·.id)).getD 0
         let idOf (i : Nat) : Option Int := (ed.bufs.getD i none).map (·.id)
         let idx : Int :=
